@@ -18,7 +18,7 @@ START=$(date +%s)
 VERIF_REPO=$WT VERIF_EVIDENCE_DIR=$S/evidence_$TIER VERIF_REPLAY_DIR=$S/replay ./check $P --tier $TIER > $S/check_$TIER.log 2>&1; RC=$?
 END=$(date +%s)
 VIOL=$(grep -c "^VIOLATION" $S/check_$TIER.log)
-python3 - "$S/meta.json" "$P" "$TIER" "$RC" "$VIOL" "$((END-START))" "$(git -C /verif rev-parse --short HEAD)" <<'PY'
+python3 - "$S/meta.json" "$P" "$TIER" "$RC" "$VIOL" "$((END-START))" "$(git rev-parse --short HEAD)" <<'PY'
 import json,sys
 path,p,tier,rc,viol,secs,vh=sys.argv[1:]
 m=json.load(open(path))
